@@ -150,6 +150,28 @@ thread_local! {
     /// the last public call ended in an error or a panic: the run is over
     static STOPPED: std::cell::Cell<bool> = const { std::cell::Cell::new(false) };
 }
+thread_local! {
+    /// section-skipping mode: xorshift state (0 = off).  In this mode a section reader is left before all of its entries
+    /// were read (about every third time), so that the transition functions have to pass over the rest themselves.
+    static SKIP: std::cell::Cell<u64> = const { std::cell::Cell::new(0) };
+}
+pub fn set_skip_mode(seed: Option<u64>) {
+    SKIP.with(|c| c.set(seed.map_or(0, |s| s | 1)));
+}
+fn leave_early() -> bool {
+    SKIP.with(|c| {
+        let mut x = c.get();
+        if x == 0 {
+            return false;
+        }
+        x ^= x << 13;
+        x ^= x >> 7;
+        x ^= x << 17;
+        c.set(x | 1);
+        x % 3 == 0
+    })
+}
+
 fn stopped() -> bool {
     STOPPED.with(|c| c.get())
 }
@@ -308,6 +330,9 @@ pub fn init_json(i: Option<bool>) -> &'static str {
 macro_rules! section {
     ($rd:expr, $next:ident, $name:expr, $conv:expr) => {{
         loop {
+            if leave_early() {
+                break;
+            }
             let go = call($name, || match $rd.$next() {
                 Ok(Some(x)) => json!({"res":"some","item":$conv(x)}),
                 Ok(None) => json!({"res":"secend"}),
@@ -362,6 +387,9 @@ macro_rules! aiger_sections {
         section!(r, next_and_gate, "next_and_gate", $gate_item);
         let mut r = step!(r, symbols, "symbols");
         loop {
+            if leave_early() {
+                break;
+            }
             let go = call("next_symbol", || match r.next_symbol() {
                 Ok(Some(s)) => json!({"res":"some","item":sym_json(&s)}),
                 Ok(None) => json!({"res":"secend"}),
@@ -419,6 +447,9 @@ fn run_aag<L: flussab_aiger::Lit + 'static>(reader: Input) {
     }
     let mut r = slot.take().unwrap();
     loop {
+        if leave_early() {
+            break;
+        }
         let go = call("next_input", || match r.next_input() {
             Ok(Some(x)) => json!({"res":"some","item":["lit", num(x.code())]}),
             Ok(None) => json!({"res":"secend"}),
@@ -685,6 +716,15 @@ fn dispatch(reader: Input, cfg: &RunCfg) {
         "log" => with_dimacs_lit!(lit, run_log, reader, cfg),
         "aag" => with_aiger_lit!(lit, run_aag, reader),
         "aig" => with_aiger_lit!(lit, run_aig, reader),
+        "aag_skip" | "aig_skip" => {
+            set_skip_mode(Some(cfg.seed ^ 0x5eed_5eed));
+            if cfg.parser == "aag_skip" {
+                with_aiger_lit!(lit, run_aag, reader)
+            } else {
+                with_aiger_lit!(lit, run_aig, reader)
+            }
+            set_skip_mode(None);
+        }
         "aag_parse" => with_aiger_lit!(lit, run_aag_parse, reader),
         "aig_parse" => with_aiger_lit!(lit, run_aig_parse, reader),
         _ => run_btor2(reader),
